@@ -13,7 +13,7 @@ Decided clauses:
 Not decided: that the formulas compute the group law; that all algorithms return identical points.
 """
 import itertools
-from rules import driver, core, r_err, r_mpt, ts_bn
+from rules import driver, core, r_err, r_mpt, ts_bn, r_kill
 from rules.core import key, const_val, walk
 from props import common, fixtures
 
@@ -466,7 +466,7 @@ def run(rep, tier):
     aspecs = [spec_of(c) for c in acfgs]
     us = driver.load_units(aspecs)
     rep.use_units(us)
-    n_err = n_ts = n_arr = n_g = 0
+    n_err = n_ts = n_arr = n_g = n_kill = 0
     first = True
     for s in aspecs:
         u = us[s.label]
@@ -484,6 +484,9 @@ def run(rep, tier):
                 n_arr += c
         g = exceptional_guards(rep, u)
         jacobian_raw_compare(rep, u)
+        nk = r_kill.check(rep, u, [f for f in u.function_list if f.relfile() == EC_H and not f.name.endswith("self_test")])
+        if first:
+            n_kill = nk
         if first:
             n_g = g
         first = False
@@ -491,6 +494,7 @@ def run(rep, tier):
     rep.floor("bn/point locals tracked", n_ts, 40)
     rep.floor("table-element destinations", n_arr, 20)
     rep.floor("exceptional-case guards", n_g, 8)
+    rep.floor("field stores into local points", n_kill, 1)
     del CURVES[:]
     curve_table(rep, us[aspecs[0].label])
     ncap = 0
@@ -502,7 +506,7 @@ def run(rep, tier):
         "Static analysis of math/elliptic_curve.h: %d configurations compiled as witnesses, %d analysed in depth. "
         "Decided: every configuration builds and dispatches to declared functions; no status dropped; locals and "
         "precompute-table elements initialised before use (element index agreement); exceptional-case tests guard "
-        "the general formulas with the right polarity and scalar 0 never enters a ladder; all built-in curve records "
+        "the general formulas with the right polarity and scalar 0 never enters a ladder; a flag copied into a local point is not wiped by a later initialiser (R-KILL); all built-in curve records "
         "are arithmetically consistent (checked with python big integers). NOT decided: that the formulas implement "
         "the group law or that algorithms agree on the resulting point." % (len(res), len(us)),
         ["python big-integer arithmetic and Miller-Rabin with 12 bases for the curve records",
@@ -510,6 +514,10 @@ def run(rep, tier):
 
 
 def selftest():
+    u = fixtures.load("kill.c")
+    rep = driver.Report("fixture", "quick")
+    r_kill.check(rep, u, [f for f in u.function_list if f.name.startswith("fx_sub")])
+    fixtures.expect(rep, ["fx_sub_bad"], ["fx_sub_ok", "fx_sub_read_ok"], "R-KILL")
     u = fixtures.load("ts_bn.c")
     rep = driver.Report("fixture", "quick")
     for fn in u.function_list:
